@@ -6,6 +6,9 @@ import (
 	"encoding/json"
 	"fmt"
 	"github.com/formancehq/numscript/internal/analysis"
+	"hash/adler32"
+	"hash/crc32"
+	"hash/fnv"
 	"io"
 	"os"
 	"sort"
@@ -169,9 +172,10 @@ func canonAll(xs []string) string {
 type op struct {
 	kind  string // open openplain change change2 hover definition symbols
 	uri   int
-	text  int // text index (open/change); for change2 the LAST change
-	text0 int // change2: the first (superseded) change
-	pos   int // index into positions
+	text  int    // text index (open/change); for change2 the LAST change
+	text0 int    // change2: the first (superseded) change
+	pos   int    // index into positions
+	raw   string // openraw / changeraw: the text itself
 }
 
 func (o op) String() string {
@@ -186,6 +190,8 @@ func (o op) String() string {
 		return fmt.Sprintf("symbols(u%d)", o.uri)
 	case "change0":
 		return fmt.Sprintf("change-with-no-content-changes(u%d)", o.uri)
+	case "openraw", "changeraw":
+		return fmt.Sprintf("%s(u%d,%q…)", o.kind, o.uri, o.raw[:minInt(24, len(o.raw))])
 	}
 	return fmt.Sprintf("%s(u%d,p%d)", o.kind, o.uri, o.pos)
 }
@@ -205,6 +211,10 @@ func params(o op, text func(i int) string, positions [][2]int) (string, any) {
 		// the current text of the document with different trailing blanks (or, for a document that
 		// is not open yet, the plain text with them)
 		return "textDocument/didChange", map[string]any{"textDocument": map[string]any{"uri": uriOf(o.uri), "version": 4}, "contentChanges": []any{map[string]any{"text": wsText}}}
+	case "openraw":
+		return "textDocument/didOpen", map[string]any{"textDocument": map[string]any{"uri": uriOf(o.uri), "languageId": "numscript", "version": 1, "text": o.raw}}
+	case "changeraw":
+		return "textDocument/didChange", map[string]any{"textDocument": map[string]any{"uri": uriOf(o.uri), "version": 6}, "contentChanges": []any{map[string]any{"text": o.raw}}}
 	case "change0":
 		// a change notification that carries no content change: the document stays what it was
 		return "textDocument/didChange", map[string]any{"textDocument": map[string]any{"uri": uriOf(o.uri), "version": 5}, "contentChanges": []any{}}
@@ -311,7 +321,19 @@ func rangedChange(old, new string) map[string]any {
 	for s > 0 && !utf8.RuneStart(old[len(old)-s]) {
 		s--
 	}
-	return map[string]any{"range": map[string]any{"start": lspPosAt(old, p), "end": lspPosAt(old, len(old)-s)}, "text": new[p : len(new)-s]}
+	if len(old)%2 == 0 {
+		// not the smallest edit: the rest of the line is replaced (by itself) as well
+		for s > 0 && old[len(old)-s] != '\n' {
+			s--
+		}
+	}
+	end := lspPosAt(old, len(old)-s)
+	if e := len(old) - s; (e == len(old) || old[e] == '\n') && len(old)%2 == 0 {
+		// the edit ends at the end of a line: a client may give any column beyond it
+		// ("if the character value is greater than the line length it defaults back to the line length")
+		end["character"] = 2147483647
+	}
+	return map[string]any{"range": map[string]any{"start": lspPosAt(old, p), "end": end}, "text": new[p : len(new)-s]}
 }
 
 // positions probed by hover / definition in histories (chosen to fall on variable uses in some
@@ -370,9 +392,12 @@ func (rn *runner) replay(ops []op, label string) bool {
 		}
 		// what the written text is (the last content change)
 		var written string
-		isWrite := o.kind == "open" || o.kind == "change" || o.kind == "change2" || o.kind == "openplain" || o.kind == "changews"
+		isWrite := o.kind == "open" || o.kind == "change" || o.kind == "change2" || o.kind == "openplain" || o.kind == "changews" || o.kind == "openraw" || o.kind == "changeraw"
 		if isWrite {
 			written = textOf[version]
+			if o.kind == "openraw" || o.kind == "changeraw" {
+				written = o.raw
+			}
 			if o.kind == "openplain" {
 				written = plainText
 			}
@@ -625,7 +650,70 @@ func runC19(c *fw.Ctx) {
 			c.Sample(map[string]any{"case": id, "history_head": h, "length": l})
 		}
 	}
+	// texts that collide under the short checksums a cache might be keyed by (CRC-32, Adler-32,
+	// FNV-32): found by a birthday search over variants of one script that differ in a comment
+	for pi, pair := range collidingTexts() {
+		id := fmt.Sprintf("collision/%s", pair.hash)
+		if !c.Want(70_000_000+pi, id) {
+			continue
+		}
+		pos := op{kind: "hover", uri: 0, pos: 0}
+		for _, ops := range [][]op{
+			{{kind: "openraw", uri: 0, raw: pair.a}, {kind: "changeraw", uri: 0, raw: pair.b}, pos, {kind: "symbols", uri: 0}, {kind: "definition", uri: 0, pos: 1}},
+			{{kind: "openraw", uri: 0, raw: pair.a}, {kind: "openraw", uri: 1, raw: pair.b}, {kind: "symbols", uri: 1}, {kind: "hover", uri: 1, pos: 0}, {kind: "symbols", uri: 0}},
+			{{kind: "openraw", uri: 0, raw: pair.b}, {kind: "changeraw", uri: 0, raw: pair.a}, {kind: "changeraw", uri: 0, raw: pair.b}, {kind: "symbols", uri: 0}},
+		} {
+			if !rn.replay(ops, "checksum-collision:"+pair.hash) {
+				return
+			}
+			c.Count("histories_over_texts_with_equal_checksums", 1)
+		}
+	}
 	navigation(c)
+}
+
+type textPair struct{ hash, a, b string }
+
+var collisions []textPair
+
+// collidingTexts finds, once per process, pairs of different scripts with equal CRC-32 / Adler-32 /
+// FNV-32a / equal length-and-ends. The two scripts of a pair declare different variables, so that
+// an answer computed from the other one is visible.
+func collidingTexts() []textPair {
+	if collisions != nil {
+		return collisions
+	}
+	mk := func(i int) string {
+		return fmt.Sprintf("// order %08d\nvars { monetary $amt_%d account $dst }\nsend $amt_%d (source = @world destination = $dst)\n", i*7919%100000000, i%9, i%9)
+	}
+	type hf struct {
+		name string
+		f    func(string) uint32
+	}
+	hs := []hf{
+		{"crc32", func(s string) uint32 { return crc32.ChecksumIEEE([]byte(s)) }},
+		{"adler32", func(s string) uint32 { return adler32.Checksum([]byte(s)) }},
+		{"fnv32a", func(s string) uint32 { h := fnv.New32a(); h.Write([]byte(s)); return h.Sum32() }},
+		{"crc32-castagnoli", func(s string) uint32 { return crc32.Checksum([]byte(s), crc32.MakeTable(crc32.Castagnoli)) }},
+	}
+	for _, h := range hs {
+		seen := map[uint32]int{}
+		for i := 0; i < 600000; i++ {
+			t := mk(i)
+			k := h.f(t)
+			if j, ok := seen[k]; ok && j%9 != i%9 {
+				collisions = append(collisions, textPair{h.name, mk(j), t})
+				break
+			}
+			if _, ok := seen[k]; !ok {
+				seen[k] = i
+			}
+		}
+	}
+	if collisions == nil {
+		collisions = []textPair{}
+	}
+	return collisions
 }
 
 func minInt(a, b int) int {
